@@ -13,10 +13,23 @@ Info(what) == [l |-> l, run |-> E.run, st |-> E.st, k |-> E.k, what |-> what,
                last |-> IF E.k > 0 THEN E.e.calls[E.k].o ELSE "constructor",
                sig |-> E.st \o "/" \o (IF E.k > 0 THEN E.e.calls[E.k].o ELSE "constructor") \o "/" \o what]
 
+\* C18 for structures serialised on their own: the same field limits as when they are added to a table
+NCallsK(o) == Len(SelectSeq(SubSeq(E.e.calls, 1, E.k), LAMBDA c : c.o = o))
+SubFits ==
+  CASE E.st = "proc" -> 20 + 4 * NCallsK("add_cache") <= 255
+    [] E.st = "cxims" -> NCallsK("add_xormap") <= 255
+    [] E.st = "msci" -> NCallsK("add_smbios_handle") <= 65535
+    [] E.st = "iommu" -> 32 + 8 * Len(OptList(E.e.a, "wires")) <= 65535
+    [] E.st = "rc" -> 16 + 20 * Len(OptList(E.e.a, "maps")) <= 65535
+    [] E.st = "plat" -> 12 + Len(E.e.a.name) + 1 + 20 * Len(OptList(E.e.a, "maps")) <= 65535
+    [] E.st = "hart" -> 12 + 4 * (1 + NCallsK("with_cmo")) <= 65535
+    [] E.st = "qos" -> 28 + FoldLeft(LAMBDA acc, c : acc + Len(ResBytes(c.a.v)), 0, SubSeq(E.e.calls, 1, E.k)) <= 65535
+    [] OTHER -> TRUE
 TSub ==
   /\ E.ev = "sub"
   /\ before' = E.img
-  /\ IF E.panic THEN Judge("C11", FALSE, Info("unexpected_panic")) /\ Judge("C04", FALSE, Info("unexpected_panic"))
+  /\ Judge("C18", ~E.panic => SubFits, Info("oversize_not_refused"))
+  /\ IF E.panic THEN Judge("C11", ~SubFits, Info("unexpected_panic")) /\ Judge("C04", ~SubFits, Info("unexpected_panic"))
      ELSE LET ref == LayBytes(LayK(E.st, E.e, E.R, E.k)) IN
           /\ Judge("C11", ObsFlagUnion(E.st, E.e, E.R, E.k, E.img), Info("flag_union"))
           /\ Judge("C11", (E.k > 0 /\ ~E.first) => ObsFrame(E.st, E.e, E.R, E.k, before, E.img), Info("frame"))
